@@ -73,7 +73,7 @@ Definition enc_scratch_ok (c : enc_case) : bool :=
   let '(pt, ssrc, bs) := c in
   let sbs := map (fun b => (unwire_all (ob_flags b) (ob_media b), ob_n b)) bs in
   forallb (fun b => list_eqb (list_eqb Z.eqb) (map wire (unwire_all (ob_flags b) (ob_media b))) (ob_media b)) bs &&
-  list_eqb2 res_eqb (run_batches_s true dirty_env dirty_pool (new_encoder_s pt ssrc) sbs) (map snd bs).
+  list_eqb2 res_eqb (run_batches_s true true dirty_env dirty_pool (new_encoder_s pt ssrc) sbs) (map snd bs).
 
 Definition enc_scratch_mismatches (cases : list enc_case) : list nat :=
   find_idx (fun c => negb (enc_scratch_ok c)) cases 0.
